@@ -256,7 +256,7 @@ pub fn gen_jumbo(seed: u64) -> (PnmScenario, &'static str, Option<String>) {
     if let RStack::Buf { cap, .. } | RStack::ChainBuf { cap, .. } = &mut reader.stack {
         *cap = (*cap).max(512);
     }
-    (PnmScenario { work: PnmWork::Lib(li), writer, disk: vec![], reader }, "search:jumbo", None)
+    (PnmScenario { work: PnmWork::Lib(li), writer, disk: vec![], reader, via_path: false }, "search:jumbo", None)
 }
 
 pub fn gen_scenario(seed: u64) -> (PnmScenario, &'static str, Option<String>) {
@@ -335,7 +335,8 @@ pub fn gen_scenario(seed: u64) -> (PnmScenario, &'static str, Option<String>) {
             add_reader_fault(&mut rng, &mut reader, len, &hot);
         }
     }
-    (PnmScenario { work, writer, disk, reader }, kind, self_check)
+    let via_path = rng.chance(1, 40);
+    (PnmScenario { work, writer, disk, reader, via_path }, kind, self_check)
 }
 
 // ---------------------------------------------------------------------------
@@ -357,11 +358,22 @@ enum WriteRes {
     Done(io::Result<()>),
 }
 
-struct WritePpm<'a>(&'a LibImage);
+/// With a path, the image goes through `save_ppm` to the real file system instead of
+/// through `write_ppm` to the given writer.
+struct WritePpm<'a>(&'a LibImage, Option<&'a std::path::Path>);
+
+fn put<W: Write, V: re::util::buf::AsSlice2<Color3>>(out: W, path: Option<&std::path::Path>, v: V) -> io::Result<()> {
+    match path {
+        None => write_ppm(out, v),
+        Some(p) => re::util::pnm::save_ppm(p, v),
+    }
+}
+
 impl WriteConsumer for WritePpm<'_> {
     type Out = WriteRes;
     fn consume<W: Write>(self, out: W) -> WriteRes {
         let li = self.0;
+        let path = self.1;
         let n = (li.bw * li.bh) as usize;
         let data = pix_bytes(&li.pixels, 3 * n);
         let colors: Vec<Color3> = data.chunks_exact(3).map(|c| rgb(c[0], c[1], c[2])).collect();
@@ -375,12 +387,12 @@ impl WriteConsumer for WritePpm<'_> {
             },
         };
         match li.view {
-            View::Owned => WriteRes::Done(write_ppm(out, buf.unwrap())),
-            View::Ref => WriteRes::Done(write_ppm(out, buf.as_ref().unwrap())),
+            View::Owned => WriteRes::Done(put(out, path, buf.unwrap())),
+            View::Ref => WriteRes::Done(put(out, path, buf.as_ref().unwrap())),
             View::Slice(r) => {
                 let b = buf.as_ref().unwrap();
                 match catch(|| b.slice(rect(r))) {
-                    Ok(s) => WriteRes::Done(write_ppm(out, s)),
+                    Ok(s) => WriteRes::Done(put(out, path, s)),
                     Err(c) => WriteRes::NoImage(c),
                 }
             }
@@ -388,7 +400,7 @@ impl WriteConsumer for WritePpm<'_> {
                 let b = buf.as_ref().unwrap();
                 match catch(|| b.slice(rect(o))) {
                     Ok(so) => match catch(|| so.slice(rect(i))) {
-                        Ok(s) => WriteRes::Done(write_ppm(out, s)),
+                        Ok(s) => WriteRes::Done(put(out, path, s)),
                         Err(c) => WriteRes::NoImage(c),
                     },
                     Err(c) => WriteRes::NoImage(c),
@@ -404,12 +416,12 @@ impl WriteConsumer for WritePpm<'_> {
                     return WriteRes::NoImage(c);
                 }
                 let s = b.slice_mut(rect(r));
-                WriteRes::Done(write_ppm(out, s))
+                WriteRes::Done(put(out, path, s))
             }
             View::SliceNew { w, h, stride, offset } => {
                 let d = &colors[offset as usize..];
                 match catch(|| Slice2::new((w, h), stride, d)) {
-                    Ok(s) => WriteRes::Done(write_ppm(out, s)),
+                    Ok(s) => WriteRes::Done(put(out, path, s)),
                     Err(c) => WriteRes::NoImage(c),
                 }
             }
@@ -474,7 +486,7 @@ pub fn run(scn: &PnmScenario, record: bool) -> RunResult {
         PnmWork::Lib(li) => {
             let (w, h, px) = li.expected();
             let (sink, core) = SimSink::new(&scn.writer, p6_len(w, h) + 3 * (li.bw * li.bh) as usize, log.clone());
-            let res = catch(|| drive_writer(scn.writer.stack, sink, WritePpm(li)));
+            let res = catch(|| drive_writer(scn.writer.stack, sink, WritePpm(li, None)));
             bytes = std::mem::take(&mut core.borrow_mut().disk);
             let led = log.borrow().ledger.clone();
             match res {
@@ -767,6 +779,10 @@ pub fn run(scn: &PnmScenario, record: bool) -> RunResult {
         }
     }
 
+    if scn.via_path {
+        wrapper_cross_check(scn, &bytes, &base_out, &mut rr);
+    }
+
     rr.benign_only = ledger.read_destructive() + ledger.write_destructive() + ledger.storage_fired() == 0;
     rr.log_hash = {
         let mut h = log.borrow().hash;
@@ -789,6 +805,65 @@ pub fn run(scn: &PnmScenario, record: bool) -> RunResult {
     }
     rr.ledger = ledger;
     rr
+}
+
+/// W: the path-based wrappers `save_ppm` / `load_pnm`, run against the real file system
+/// (fault-free, not simulated), must agree with the stream functions they wrap.
+fn wrapper_cross_check(scn: &PnmScenario, bytes: &[u8], base_out: &Option<PnmOut>, rr: &mut RunResult) {
+    let Some(path) = crate::core::scratch_file("pnm") else {
+        rr.probe("real-file cross-check skipped: no writable scratch directory");
+        return;
+    };
+    rr.probe("path wrappers cross-checked on the real file system");
+    // load_pnm(file holding the bytes on the simulated disk) == parse_pnm(those bytes)
+    if let (Ok(()), Some(want)) = (std::fs::write(&path, bytes), base_out) {
+        match catch(|| re::util::pnm::load_pnm(&path)) {
+            Err(c) => rr.violate(Violation::new("W", format!("load-{}", c.class()), format!("load_pnm {}", c.detail()))),
+            Ok(r) => {
+                let got = observe(r, "", &None, &mut RunResult::default());
+                let d = diff(&got, want);
+                rr.oracle("W", d == "equal");
+                if d != "equal" {
+                    rr.violate(Violation::new("W", format!("load-{d}"), format!("load_pnm(path) gave {} but parse_pnm over the file's {} bytes gave {}", got.brief(), bytes.len(), want.brief())));
+                }
+            }
+        }
+    }
+    // save_ppm over a longer, older file; then the file must hold exactly this image
+    if let PnmWork::Lib(li) = &scn.work {
+        let (w, h, px) = li.expected();
+        let _ = std::fs::write(&path, vec![b'7'; p6_len(w, h) + 4096]);
+        match catch(|| WritePpm(li, Some(&path)).consume(io::sink())) {
+            Err(c) => rr.violate(Violation::new("W", format!("save-{}", c.class()), format!("save_ppm of a {w}x{h} image {}", c.detail()))),
+            Ok(WriteRes::NoImage(_)) => {}
+            Ok(WriteRes::Done(res)) => {
+                let stored = std::fs::read(&path).unwrap_or_default();
+                let want = PnmOut::Ok { w, h, px: px.clone() };
+                let back = catch(|| re::util::pnm::load_pnm(&path)).ok().map(|r| observe(r, "", &None, &mut RunResult::default()));
+                let mut problems = vec![];
+                if let Err(e) = &res {
+                    problems.push(format!("save_ppm returned {e:?} on a healthy file system"));
+                }
+                if let Err(e) = is_p6_encoding_of(&stored, w, h, &px) {
+                    problems.push(e);
+                }
+                if back.as_ref() != Some(&want) {
+                    problems.push(format!("load_pnm read back {}", back.as_ref().map_or("a panic".into(), |b| b.brief())));
+                }
+                rr.oracle("W", problems.is_empty());
+                if !problems.is_empty() {
+                    rr.violate(Violation::new("W", "save-roundtrip", format!("save_ppm then load_pnm of a {w}x{h} image over an older, longer file: {}", problems.join("; "))));
+                }
+            }
+        }
+    }
+    // a path that does not exist is an error, not a panic
+    let _ = std::fs::remove_file(&path);
+    match catch(|| re::util::pnm::load_pnm(&path)) {
+        Ok(Err(_)) => rr.oracle("W", true),
+        Ok(Ok(_)) => rr.violate(Violation::new("W", "load-missing-ok", "load_pnm of a missing file returned Ok")),
+        Err(c) => rr.violate(Violation::new("W", format!("load-missing-{}", c.class()), format!("load_pnm of a missing file {}", c.detail()))),
+    }
 }
 
 pub fn stacks(scn: &PnmScenario) -> Vec<String> {
@@ -816,6 +891,9 @@ pub fn stacks(scn: &PnmScenario) -> Vec<String> {
 
 pub fn shrink(s: &PnmScenario) -> Vec<PnmScenario> {
     let mut out = vec![];
+    if s.via_path {
+        out.push(PnmScenario { via_path: false, ..s.clone() });
+    }
     for i in 0..s.disk.len() {
         let mut d = s.disk.clone();
         d.remove(i);
@@ -971,6 +1049,7 @@ pub fn shrink(s: &PnmScenario) -> Vec<PnmScenario> {
                         writer: s.writer.clone(),
                         disk: crate::obj::shift_faults(&s.disk, a, end),
                         reader: crate::obj::shift_reader(&s.reader, a, end),
+                        via_path: s.via_path,
                     });
                     end -= width;
                     if out.len() > 400 {
@@ -1021,5 +1100,5 @@ pub fn sweep_base(seed: u64) -> crate::sweep::SweepBase {
 
 pub fn sweep_job(base: &crate::sweep::SweepBase, k: usize) -> (PnmScenario, &'static str) {
     let (disk, reader, kind) = base.job(k);
-    (PnmScenario { work: PnmWork::Raw { bytes: base.bytes.clone() }, writer: WriterCfg::plain(), disk, reader }, kind)
+    (PnmScenario { work: PnmWork::Raw { bytes: base.bytes.clone() }, writer: WriterCfg::plain(), disk, reader, via_path: false }, kind)
 }
